@@ -13,7 +13,7 @@ import os
 from .. import common, metaref
 
 TOKENS = ["a", "PUSH", "PUSH_LITERAL", "PEEK", "PEEK_ALL", "POP", "POP_ALL", "DROP", "POPx", '"s"', '^"s"', "'c'", "'\\n'", "..", "(", ")", "[", "]",
-          "{", "}", ",", "2", "-1", "|", "~", "&", "!", "?", "*", "+", "#t =", "#tt ="]
+          "{", "}", ",", "2", "-1", "|", "~", "&", "!", "?", "*", "+", "#t =", "#tt =", "^", "'a'..'b'"]
 HEADER_TOKENS = ["a", "=", "_", "@", "$", "!", "{", "}", '"s"', "///d\n", "//!d\n", "b"]
 FILLERS = ["", " ", "\n", "/*c*/", "//c\n"]
 
@@ -23,6 +23,10 @@ SITE_TOKENS = ["a", "|", "~", "!", "?"]
 SITES = [("", ""), ("(", ")"), ("PUSH(", ")"), ("a ~ (", ")"), ("((", "))"), ("PUSH((", "))"), ("(PUSH(", "))")]
 
 EXTRA_TEXTS = [
+    # every escape form in every kind of literal (a literal is decoded exactly once)
+    *[tmpl.format(e) for tmpl in ('r = {{ "{}" }}', 'r = {{ ^"{}" }}', 'r = {{ PUSH_LITERAL("{}") }}', 'r = {{ "a{}b" }}', 'r = {{ ^"a{}b" }}', 'r = {{ ^"{}{}" }}'.replace("{}{}", "{0}{0}"))
+      for e in ("\\\\", "\\x5c", "\\u{5C}", "\\\\n", "\\\\x41", "\\\\u{41}", "\\x5cn", "\\\"", "\\'", "\\0", "\\t", "\\\\\\\\", "\\u{5c}\\u{5c}")],
+    *[f"r = {{ '{e}'..'{e}' }}" for e in ("\\\\", "\\x5c", "\\u{5C}", "\\'", "'", "\"")],
     # escapes, numbers, slices, tags, keyword prefixes, docs: deeper valid/invalid forms with a known structure
     'r = { "\\x41\\u{42}\\u{0043}\\u{000044}C" }', 'r = { "\\u{123}" }', 'r = { "\\u{12345}" }', 'r = { "\\u{1}" }', 'r = { "\\u{1234567}" }', 'r = { "\\x4" }', 'r = { "\\xZZ" }',
     'r = { "a\\0b\\\'c\\"d\\\\e\\nf\\rg\\th" }', 'r = { "\\b" }', 'r = { "\\/" }', 'r = { "\\f" }', "r = { '\\''..'\\\\' }", "r = { '\\x41'..'\\u{5A}' }", "r = { '\\0'..'\\t' }", "r = { 'ab'..'c' }", "r = { ''..'c' }",
